@@ -948,6 +948,10 @@ static int load_module_symbol_file(struct uftrace_symtab *symtab, const char *sy
 		char *name;
 		char *pos;
 
+		/* a last line without its newline is an incomplete record (cut file) */
+		if (strchr(line, '\n') == NULL)
+			break;
+
 		if (*line == '#') {
 			if (!strncmp(line, "# symbols: ", 11)) {
 				size_t nr_syms = strtoul(line + 11, &pos, 10);
@@ -1247,6 +1251,10 @@ int check_symbol_file(const char *symfile, char *pathname, int pathlen, char *bu
 	memset(build_id, 0, build_id_len);
 	while (getline(&line, &len, fp) > 0) {
 		if (*line != '#')
+			break;
+
+		/* a last line without its newline is an incomplete record (cut file) */
+		if (strchr(line, '\n') == NULL)
 			break;
 
 		if (!strncmp(line, "# path name: ", 13)) {
